@@ -186,7 +186,7 @@ func genCache(g *genCtx) {
 			nc := r.rangeIn(lo(o), 40)
 			n2, pc2 := o.replica(nc)
 			g.op("resize %d n=%d pc=%d", nc, n2, pc2)
-			for i := 0; i < r.rangeIn(0, 20); i++ {
+			for i, iN := 0, r.rangeIn(0, 20); i < iN; i++ {
 				g.op("set %d %d", key(), r.intn(9)+1)
 			}
 		}
